@@ -21,6 +21,8 @@ type Universe struct {
 	fldCodes     map[string]int          // component name -> code for escaping field pointers
 	escFields    map[string]bool         // component names whose address escapes
 	escFieldType map[string]types.Type
+	declCache    string
+	declN        int
 }
 
 type StructInfo struct {
@@ -209,6 +211,15 @@ func (u *Universe) zeroOf(t types.Type) string {
 // declarations emits the datatype block. Must be called after all types were registered;
 // it iterates until closure.
 func (u *Universe) declarations() string {
+	if u.declCache != "" && u.declN == len(u.structOrd)+len(u.boxedOrd) {
+		return u.declCache
+	}
+	s := u.declarationsUncached()
+	u.declCache, u.declN = s, len(u.structOrd)+len(u.boxedOrd)
+	return s
+}
+
+func (u *Universe) declarationsUncached() string {
 	var b strings.Builder
 	// closure: registering sorts of fields/boxed may add more
 	for n := -1; n != len(u.structOrd)+len(u.boxedOrd); {
